@@ -89,11 +89,13 @@ def c13(tier: str) -> int:
                     tlc_model('MC_Taxonomy', 'MC_Taxonomy4.cfg', timeout=6 * 3600))
     # 2. spec -> code -> spec
     cases = graphs.cases(tier, seed(), n4=3000 if not thorough else 0,
-                         nrandom=400 if not thorough else 20000, maxn=7 if not thorough else 9)
+                         nrandom=400 if not thorough else 10000, maxn=7 if not thorough else 8)
     if thorough:
+        # the code is run on a seeded third of the 65536 four-node digraphs TLC has just
+        # model-checked (all of them took over an hour together with the random graphs)
         rng = random.Random(seed())
         k = len(cases)
-        for g in graphs.tlc_graphs(4):
+        for g in rng.sample(graphs.tlc_graphs(4), 22000):
             k += 1
             cases.append(graphs.finish(g, rng, k))
     obs = observe(cases, ['c13'])
